@@ -482,6 +482,47 @@ def h_mut_pos(op, n, m):
     return h
 
 
+def h_self_operand(op, n):
+    """the stream itself as the operand of a mutator (s.overwrite(s, p), s.insert(s, p), s.append(s), s += s, s.prepend(s)):
+    the bits written are the content *before* the call, and the position rule is the one for any other operand"""
+    def h(K):
+        import bitstring
+        cls, x, pos, s = _obj(K, 'BitStream', n)
+        if op in ('insert', 'overwrite'):
+            p = K.opt_int('p')
+            r = call(lambda: get_attr(s, op)(s, p))
+            if n == 0:
+                return K.check(r.ok and _unchanged(K, s, x, pos), 'empty operand: no-op, pos unchanged', exc=r.excname, pos=s._pos)
+            q = pos if p is None else (p + n if p < 0 else p)
+            if q < 0 or q > n:
+                return K.check(r.raised(ValueError) and _unchanged(K, s, x, pos), 'invalid position must raise ValueError, pos unchanged', exc=r.excname)
+            if not r.ok:
+                return K.fail(op + ' raised', exc=r.excname)
+            qq = K.conc(q)
+            exp = O.ref_concat(x[:qq], x, x[qq:]) if op == 'insert' else O.ref_concat(x[:qq], x)
+            return K.check(same(raw(s), exp) and s._pos == q + n, op + ' with itself: content and pos just after the written bits', pos=s._pos, expected=q + n, length=len(s)) and _valid_pos(K, s, n)
+        if op == 'append':
+            r = call(lambda: s.append(s))
+            exp_pos = 2 * n
+        elif op == 'iadd':
+            t = s
+
+            def f():
+                nonlocal t
+                t += s
+            r = call(f)
+            exp_pos = 2 * n
+        else:
+            r = call(lambda: s.prepend(s))
+            exp_pos = 0 if n else pos
+        if not r.ok:
+            return K.fail(op + ' raised', exc=r.excname)
+        if n == 0:
+            return _valid_pos(K, s, n)
+        return K.check(same(raw(s), O.ref_concat(x, x)) and s._pos == exp_pos, op + ' with itself: content doubled, documented position', pos=s._pos, expected=exp_pos, length=len(s)) and _valid_pos(K, s, n)
+    return h
+
+
 def h_const_mut(op, n, m):
     """ConstBitStream.append / overwrite are documented for mutable streams; on any class the position must stay valid"""
     def h(K):
@@ -658,6 +699,9 @@ def conditions(tier):
     for op in ['append', 'iadd', 'prepend', 'clear', 'insert', 'overwrite', 'delslice', 'delitem', 'setslice', 'replace', 'replace-str', 'setitem', 'setslice-step', 'imul']:
         for (n, m) in (([(5, 0), (9, 0)] if op == 'replace-str' else [(0, 2), (5, 2), (5, 0)]) if q else [(0, 2), (5, 2), (5, 0), (8, 3), (1, 1), (9, 0)]):
             add(f'C06.pos-after-{op}[BitStream,n={n},m={m}]', h_mut_pos(op, n, m), f'all contents ({n}+{m} bits) x all positions x every int argument', D_MUT, n=n, m=m)
+    for op in ['append', 'iadd', 'prepend', 'insert', 'overwrite']:
+        for n in ([0, 5] if q else [0, 1, 5, 8, 9]):
+            add(f'C06.pos-after-{op}-self[BitStream,n={n}]', h_self_operand(op, n), f'all {n}-bit contents x all positions x every int position argument; the operand is the stream itself', D_MUT, n=n)
     for op in ['append', 'overwrite']:
         for (n, m) in [(4, 2), (0, 1)]:
             add(f'C06.const-{op}[n={n},m={m}]', h_const_mut(op, n, m), f'all contents ({n}+{m} bits) x all positions', D_MUT, n=n, m=m)
